@@ -885,6 +885,18 @@ F_C18_final(cfg, last, outcome, seen, ttd) ==
                         ttd[b].s = seen[a][1] /\ ttd[b].t = last.now - seen[a][2] /\ ttd[b].t >= 0)
 
 ----------------------------------------------------------------------------
+(* C20 exact arithmetic mode: with exact = k the run, rescaled to ticks of 10^-dec, must satisfy the *)
+(* date arithmetic of C02 / C10 as exact integer equalities, and every record field is a Decimal.    *)
+
+F_C20_step(cfg, pre, post) ==
+    IF cfg.exact = 0 THEN {}
+    ELSE Chk("C20.dates-are-exact-decimal-sums",
+             F_C10_step(cfg, pre, post) = {}
+             /\ (\A a \in DOMAIN post.recs : RecOk(post.recs[a], post.now))
+             /\ post.ev.date = MinDateOf(pre) /\ post.now = post.ev.date)
+         \cup Chk("C20.records-are-decimals", \A a \in DOMAIN post.recs : post.recs[a].dec)
+
+----------------------------------------------------------------------------
 (* Aggregation *)
 
 StepFails(cfg, pre, post, ob) ==
@@ -893,7 +905,7 @@ StepFails(cfg, pre, post, ob) ==
     \cup F_C05_step(cfg, pre, post) \cup F_C06_step(cfg, pre, post) \cup F_C07_step(cfg, pre, post)
     \cup F_C08_step(cfg, pre, post) \cup F_C09_step(cfg, pre, post, ob.rt) \cup F_C10_step(cfg, pre, post)
     \cup F_C11_step(cfg, pre, post) \cup F_C13_step(cfg, pre, post) \cup F_C14_step(cfg, pre, post)
-    \cup F_C17_step(cfg, pre, post) \cup F_C18_step(cfg, pre, post)
+    \cup F_C17_step(cfg, pre, post) \cup F_C18_step(cfg, pre, post) \cup F_C20_step(cfg, pre, post)
 
 \* ob = observer state AFTER the event that produced S
 InvFails(cfg, S, ob) ==
